@@ -402,6 +402,8 @@ class VM:
             self.exec_stmt(frame, s)
 
     def truth(self, frame, stmt, cond_text):
+        if cond_text in ("true", "True") and stmt.get("operation") in ("for_stmt", "while_stmt", "dowhile_stmt"):
+            return True         # a literally true loop condition is not a decision (the CFG builder gives such loops no exit edge)
         if self.decide is not None:
             d = self.decide(stmt, "cond")
             if d is not None:
@@ -421,7 +423,9 @@ class VM:
                 return
             raise VMUnsupported(f"operation {op}")
         if (op not in ("variable_decl", "method_decl", "class_decl", "global_stmt", "nonlocal_stmt") or not toplevel) \
-                and op not in ("dowhile_stmt", "for_stmt"):   # these headers are first reached after their body / init block
+                and op not in ("dowhile_stmt", "for_stmt") \
+                and not (op == "while_stmt" and s.get("condition_prebody") is not None):
+            # (those headers are first reached after their body / init block / condition block)
             self.tick(frame, s)
         h(frame, s)
 
@@ -580,7 +584,8 @@ class VM:
             if s.get("condition_prebody") is not None:
                 # some frontends (C) compute the condition in a block that runs before every test, as for_stmt documents
                 self.exec_block(frame, self.block(s.get("condition_prebody")))
-            if not first:
+                self.tick(frame, s)      # the test follows the statements that compute its value
+            elif not first:
                 self.tick(frame, s)      # the header is re-tested on every iteration
             first = False
             if not self.truth(frame, s, s.get("condition")):
